@@ -153,7 +153,7 @@ REG["C11"] = {
     "assumptions": ESC_TRUST + [
         "String::from_utf8_lossy: identity on ASCII bytes; a control byte / DEL / byte >= 0x80 never decodes to printable ASCII only (axiom_lossy_*; bounded validation in thorough tier)",
         "a line has no LF except at its end (holds for the output of split_at_newline, proved under C02)",
-        "unicode_categories::is_other is uninterpreted; assumed: printable ASCII is never `other`, an `other` char has a UTF-8 byte outside 0x20..0x7e, 0x0a occurs only in U+000A, "
+        "`no control, format or unassigned code point` is stated with unicode_categories::is_other, the predicate the escaper itself uses (Cc | Cf | Co of crate 0.1.1): the proof shows that nothing `is_other` is written, NOT that this predicate is the statement's (it is not: unassigned code points and 20 newer format characters are outside it -- KNOWN FINDING bounded.escape.unassigned-or-new-format, found by comparing with the regex crate's Unicode tables); is_other is uninterpreted; assumed: printable ASCII is never `other`, an `other` char has a UTF-8 byte outside 0x20..0x7e, 0x0a occurs only in U+000A, "
         "from_utf8_lossy(valid utf8) is the decoding (axiom_* in escape_roundtrip.rs; exhaustive validation over all scalar values in the thorough tier)",
         "String::from_utf8 is Ok exactly on valid UTF-8 (vstd valid_utf8) and then encodes back to the input",
     ],
